@@ -77,10 +77,20 @@ func VerifC06_BrokerRejects() {
 	if !verifPollSupported {
 		effective = presumed
 	}
+	firstSuccess, firstStatus := verifPollSuccess, verifPollStatus
+	// C14: whatever happened to this poll, a later request is handled (nothing is left locked)
+	{
+		regBefore := verifRegistered
+		verifPollPattern, verifPollSupported = allowed, true // a proxy that accepts exactly the allowed pattern
+		var resp2 []byte
+		err2 := i.ProxyPolls(messages.Arg{Body: []byte("poll"), RemoteAddr: ""}, &resp2)
+		verifapi.Assert(err2 == nil && verifRegistered == regBefore+1, "C14: a later well-formed poll is still handled after any earlier poll")
+		verifRegistered = regBefore
+	}
 	if !verifRefSuperset(effective, allowed) {
 		verifapi.Cover("poll rejected for its relay pattern")
 		verifapi.Assert(verifRegistered == 0, "a proxy whose pattern is not a superset of the allowed pattern is never registered (never given a client)")
-		verifapi.Assert(!verifPollSuccess && verifPollStatus != "no match", "such a poll is explicitly rejected, not answered like an idle poll")
+		verifapi.Assert(!firstSuccess && firstStatus != "no match", "such a poll is explicitly rejected, not answered like an idle poll")
 	} else {
 		verifapi.Cover("poll admitted")
 		verifapi.Assert(verifRegistered == 1, "a proxy whose pattern covers the allowed pattern is registered")
